@@ -869,6 +869,65 @@ func ruleECoercionTable(p *Program, r *Reporter) {
 				bad, badPos = fmt.Sprintf("the values accepted as integers are [%d, %d]; the values of %s that fit an int are [%d, %d]: the same number is accepted or refused depending on the Go type that carries it", gotLo, gotHi, k.name, wantLo, wantHi), toInt.Pos()
 			}
 		}
+		// the floating-point kinds: on every accepting path the operand was compared with the bounds of int (as the float
+		// nearest to them), and with no other constant
+		if b, isBasic := k.t.(*types.Basic); k.t != nil && isBasic && b.Info()&types.IsFloat != 0 && bad == "" && argSym.id != 0 {
+			ib, _, _ := intRange(types.Typ[types.Int], p.Eval.TypesSizes)
+			pow := constant.Shift(constant.MakeInt64(1), token.SHL, uint(ib-1))
+			one := constant.MakeInt64(1)
+			upper := []constant.Value{pow, constant.BinaryOp(pow, token.SUB, one)}
+			lower := []constant.Value{constant.UnaryOp(token.SUB, pow, 0), constant.BinaryOp(constant.UnaryOp(token.SUB, pow, 0), token.SUB, one)}
+			in := func(c constant.Value, set []constant.Value) bool {
+				for _, w := range set {
+					if constant.Compare(constant.ToFloat(c), token.EQL, constant.ToFloat(w)) {
+						return true
+					}
+				}
+				return false
+			}
+			for _, o := range outs {
+				if o.Cut || o.Panic || o.Ret == nil || len(o.Res) != 3 || bad != "" {
+					continue
+				}
+				if c, ok := o.Res[2].(avConst); !ok || c.v.Kind() != constant.Bool || !constant.BoolVal(c.v) {
+					continue
+				}
+				hasUp, hasLo := false, false
+				for _, cd := range o.St.Conds {
+					v := cd.V
+					for {
+						nn, isNot := v.(avNot)
+						if !isNot {
+							break
+						}
+						v = nn.x
+					}
+					cmp, isCmp := v.(avCmp)
+					if !isCmp {
+						continue
+					}
+					x, y := cmp.x, cmp.y
+					if _, isC := x.(avConst); isC {
+						x, y = y, x
+					}
+					kc, isC := y.(avConst)
+					if !isC || avKey(x) != avKey(argSym) || (kc.v.Kind() != constant.Int && kc.v.Kind() != constant.Float) {
+						continue
+					}
+					switch {
+					case in(kc.v, upper):
+						hasUp = true
+					case in(kc.v, lower):
+						hasLo = true
+					default:
+						bad, badPos = fmt.Sprintf("a %s is accepted as an integer after being compared with %s, which is not a bound of int: the same number is accepted or refused depending on the Go type that carries it", k.name, kc.v.String()), o.Ret.Pos()
+					}
+				}
+				if bad == "" && (!hasUp || !hasLo) {
+					bad, badPos = fmt.Sprintf("a %s is accepted as an integer on a path that did not compare it with both bounds of int (upper: %v, lower: %v): a value outside the range of int is converted with an undefined result", k.name, hasUp, hasLo), o.Ret.Pos()
+				}
+			}
+		}
 		switch {
 		case bad != "":
 			r.Bad(badPos, key, bad)
